@@ -102,6 +102,11 @@ def run(oc, tier, seed, model_available, escalate):
         P.algo = rng.choice([3, 4, 3, 1])
         if not P.well_formed():
             continue
+        r_ = rng.random()
+        if r_ < 0.12:
+            P.only_erasures = True                      # alone
+        elif r_ < 0.25:
+            P.erasures, P.only_erasures = True, rng.random() < 0.3
         tree = es.gen_tree(rng, P, nfiles=rng.randint(2, 5), maxsize=400)
         if len(tree) < 2:
             continue
